@@ -57,17 +57,20 @@ for _s, _d in [("i64", "i128"), ("i128", "i64"), ("u64", "u256"), ("i128", "i256
                Let("c", _s, Call("id", I(_s, tmin(_s)))), Let("d", _d, Cast(_s, _d, V("c"))), Print(V("d"))),
           feats=("cast-large", _s, _d))
 
+probe("cast-nested", Fn("id32", [("v", "u32")], "u32", Ret(V("v"))), Fn("id8", [("v", "i8")], "i8", Ret(V("v"))),
+      Main(Let("a", "i64", Cast("i32", "i64", Cast("u32", "i32", Call("id32", I("u32", 4294967295))))), Print(V("a")),
+           Let("b", "i16", I("i16", 32766)), Set(V("b"), Cast("u8", "i16", Cast("i8", "u8", Neg("i8", Call("id8", I("i8", -44)))))), Print(V("b"))),
+      feats=("cast-nested",))
+
+probe("cast-large-inline-compare", Fn("idu", [("v", "u256")], "u256", Ret(V("v"))), Fn("idi", [("v", "i256")], "i256", Ret(V("v"))),
+      Main(If(Bin("le", "i256", Cast("u256", "i256", Call("idu", I("u256", 500))), Call("idi", I("i256", 86))), [Print(I("i32", 1))], [Print(I("i32", 0))])),
+      feats=("cast-large-inline",))
+
 probe("bool-ops", Fn("t", [], "bool", Ret(B(True))), Fn("f", [], "bool", Ret(B(False))),
       Main(If(Bin("land", "bool", Call("t"), Call("f")), [Print(I("i32", 1))], [Print(I("i32", 0))]),
            If(Bin("lor", "bool", Call("f"), Call("t")), [Print(I("i32", 1))], [Print(I("i32", 0))]),
            If(Not(Call("f")), [Print(I("i32", 1))], [Print(I("i32", 0))]),
            Let("b", "bool", Bin("lt", "i32", I("i32", 1), I("i32", 2))), Print(V("b")), Print(Call("f"))), feats=("bool",))
-
-probe("bitwise-i32", Fn("id", [("v", "i32")], "i32", Ret(V("v"))),
-      Main(Let("a", "i32", Call("id", I("i32", 0x0ff0))), Let("b", "i32", Call("id", I("i32", -256))),
-           Let("x", "i32", Bin("band", "i32", V("a"), V("b"))), Print(V("x")),
-           Let("y", "i32", Bin("bor", "i32", V("a"), V("b"))), Print(V("y")),
-           Let("z", "i32", Bin("bxor", "i32", V("a"), V("b"))), Print(V("z"))), feats=("bitwise",))
 
 probe("string-print", Main(Print(Str("hello")), Let("s", "str", Str("a b")), Print(V("s")),
                            If(Bin("eq", "str", V("s"), Str("a b")), [Print(I("i32", 1))], [Print(I("i32", 0))]),
@@ -131,12 +134,15 @@ probe("method-mut-recv", Struct("C", ("V", "i32")),
 
 probe("enum-match", Enum("Color", "Red", "Green", "Blue"),
       Fn("code", [("c", TE("Color"))], "i32", Match(V("c"), [(ELit("Color", "Red"), [Ret(I("i32", 1))]), (ELit("Color", "Green"), [Ret(I("i32", 2))])], default=[Ret(I("i32", 3))])),
-      Main(Print(Call("code", ELit("Color", "Red"))), Print(Call("code", ELit("Color", "Blue"))), Let("g", TE("Color"), ELit("Color", "Green")), Print(V("g")),
+      Main(Print(Call("code", ELit("Color", "Red"))), Print(Call("code", ELit("Color", "Blue"))), Let("g", TE("Color"), ELit("Color", "Green")), Print(Call("code", V("g"))),
            If(Bin("eq", TE("Color"), V("g"), ELit("Color", "Green")), [Print(I("i32", 1))], [Print(I("i32", 0))])), feats=("enum", "match"))
 
 probe("match-int", Fn("f", [("x", "i32")], "i32", Let("out", "i32", I("i32", 0)),
                       Match(V("x"), [(I("i32", 1), [Set(V("out"), I("i32", 10))]), (I("i32", 2), [Set(V("out"), I("i32", 20))])], default=[Set(V("out"), I("i32", 30))]), Ret(V("out"))),
       Main(Print(Call("f", I("i32", 1))), Print(Call("f", I("i32", 2))), Print(Call("f", I("i32", 7)))), feats=("match",))
+
+probe("match-int64", Fn("id", [("v", "u64")], "u64", Ret(V("v"))),
+      Main(Let("x", "u64", Call("id", I("u64", 5))), Match(V("x"), [(I("u64", 0), [Print(I("i32", 0))]), (I("u64", 5), [Print(I("i32", 5))])], default=[Print(I("i32", 9))])), feats=("match64",))
 
 probe("match-no-default-stmt", Fn("f", [("x", "i32")], "i32", Let("out", "i32", I("i32", 5)),
                                   Match(V("x"), [(I("i32", 1), [Set(V("out"), I("i32", 10))])]), Ret(V("out"))),
@@ -159,6 +165,8 @@ probe("fixed-array-param", Fn("sum3", [("a", TA(3, "i32"))], "i32", Ret(Bin("add
       Main(Let("a", TA(3, "i32"), ALit(I("i32", 1), I("i32", 2), I("i32", 3))), ExprS(Call("zap", V("a"))), Print(Call("sum3", V("a")))), feats=("fixed-array-param",))
 
 probe("for-over-array", Main(Let("a", TA(3, "i32"), ALit(I("i32", 5), I("i32", 6), I("i32", 7))), ForArr("i", "v", V("a"), Print(V("i")), Print(V("v")))), feats=("for-array",))
+
+probe("for-over-dyn-array", Main(Let("d", TD("i32"), ALit(I("i32", 5), I("i32", 6))), ForArr("i", "v", V("d"), Print(V("i")), Print(V("v")))), feats=("for-dyn-array",))
 
 probe("dyn-array", Fn("ix", [("k", "i32")], "i32", Ret(V("k"))),
       Main(Let("d", TD("i32"), ALit(I("i32", 1), I("i32", 2), I("i32", 3))), Print(Len(V("d"))), Print(Idx(V("d"), Call("ix", I("i32", 0)))), Print(Idx(V("d"), Call("ix", I("i32", -1)))),
@@ -184,7 +192,7 @@ probe("closure-mutates", Main(Let("x", "i32", I("i32", 10)), LetInfer("f", Lam([
 probe("result-catch", Fn("safediv", [("a", "i32"), ("b", "i32")], TR("str", "i32"), If(Bin("eq", "i32", V("b"), I("i32", 0)), [RetErr(Str("div by zero"))]), Ret(Bin("div", "i32", V("a"), V("b")))),
       Main(Let("m1", "i32", I("i32", -1)), Let("ok", "i32", Catch(Call("safediv", I("i32", 10), I("i32", 2)), V("m1"))), Print(V("ok")),
            Let("bad", "i32", Catch(Call("safediv", I("i32", 10), I("i32", 0)), V("m1"))), Print(V("bad")),
-           CatchS(Call("safediv", I("i32", 1), I("i32", 0)), "e", Print(V("e")))), feats=("result",))
+           CatchS(Call("safediv", I("i32", 1), I("i32", 0)), "e", Print(V("e")), Ret()), Print(I("i32", 999))), feats=("result",))
 
 probe("optional", Main(Let("o", TO("i32"), I("i32", 5)), Let("n", TO("i32"), NoneE()), Let("d", "i32", I("i32", 7)),
                        Let("a", "i32", OrElse(V("o"), V("d"))), Print(V("a")), Let("b", "i32", OrElse(V("n"), V("d"))), Print(V("b"))), feats=("optional",))
@@ -198,8 +206,6 @@ probe("ref-struct-field", Struct("P", ("X", "i32"), ("Y", "i32")), Fn("setx", [(
 
 probe("ref-local", Main(Let("x", "i32", I("i32", 5)), Let("r", TMut("i32"), MutRef(V("x"))), Set(V("r"), I("i32", 9)), Print(V("x"))), feats=("ref-local",))
 
-probe("module-const", ConstD("LIMIT", "i32", I("i32", 40)), Main(Let("x", "i32", Bin("add", "i32", V("LIMIT"), I("i32", 2))), Print(V("x"))), feats=("const",))
-
 probe("nested-struct-array", Struct("In", ("A", "i8"), ("B", "i64")), Struct("Out", ("X", "u8"), ("I", TS("In")), ("Arr", TA(2, TS("In")))),
       Main(Let("i0", TS("In"), SLit("In", A=I("i8", 1), B=I("i64", 2))), Let("i1", TS("In"), SLit("In", A=I("i8", 3), B=I("i64", 4))),
            Let("arr", TA(2, TS("In")), ALit(V("i0"), V("i1"))), Let("o", TS("Out"), SLit("Out", X=I("u8", 9), I=V("i0"), Arr=V("arr"))),
@@ -207,9 +213,7 @@ probe("nested-struct-array", Struct("In", ("A", "i8"), ("B", "i64")), Struct("Ou
            Print(Fld(Fld(V("o"), "I"), "B")), Print(Fld(Idx(Fld(V("o"), "Arr"), I("i32", 1)), "A")), Print(Fld(Idx(Fld(V("o"), "Arr"), I("i32", 0)), "B")), Print(Fld(V("i0"), "B")), Print(Fld(V("o"), "X"))),
       feats=("nested",))
 
-probe("div-by-zero", Fn("z", [], "i32", Ret(I("i32", 0))), Main(Print(I("i32", 1)), Let("x", "i32", Bin("div", "i32", I("i32", 5), Call("z"))), Print(V("x"))), feats=("div-zero",))
 probe("min-div-minus-one", Fn("id", [("v", "i32")], "i32", Ret(V("v"))),
       Main(Let("x", "i32", Bin("div", "i32", Call("id", I("i32", -2147483648)), Call("id", I("i32", -1)))), Print(V("x"))), feats=("min-div",))
-probe("untyped-literal-expr", Main(Print(Bin("rem", "i32", I("i32", 7), I("i32", 3))), Print(Bin("add", "i32", I("i32", 2), I("i32", 3)))), feats=("untyped-lit",))
 probe("catch-as-argument", Fn("safediv", [("a", "i32"), ("b", "i32")], TR("str", "i32"), If(Bin("eq", "i32", V("b"), I("i32", 0)), [RetErr(Str("e"))]), Ret(Bin("div", "i32", V("a"), V("b")))),
       Main(Let("m1", "i32", I("i32", -1)), Print(Catch(Call("safediv", I("i32", 7), I("i32", 2)), V("m1")))), feats=("catch-arg",))
